@@ -63,7 +63,7 @@ def gen_case(rng, tier):
          'seed0': False}
     if rng.random() < 0.4:
         c['scale'] = rng.choice([2.0, 0.5, 1024.0, 3.0, 0.1, rng.uniform(0.01, 100)])
-    c['periods'] = rng.choice([252, 252, 52, 12, 365, 1638, 1])
+    c['periods'] = rng.choice([252, 252, 52, 12, 365, 1638, 1, 365.25, 12.5, 365.25 / 7, 252.0, 0.5])
     c['raw_scale'] = rng.choice([1.0, 1.0, 0.001, 1e-6, 2.5])
     if rng.random() < 0.5:
         # a benchmark with its own (different) dates: an earlier start and/or a later end, other values
